@@ -60,7 +60,7 @@ func runC07(line string) string {
 			any = any || cl.nodes[i].up
 		}
 		cl.mu.Unlock()
-		if !any {
+		if !any || missing { // one missing refresh is reported; do not wait for the others as well
 			return
 		}
 		idleSince := time.Time{}
@@ -232,6 +232,10 @@ func init() {
 				s2, s2, 1-o2, bulkArr([]byte("incr"), k2).String(), bulkArr([]byte("incr"), k2).String(), bulkArr([]byte("incr"), k1).String()))
 		}
 		for i := 0; i < *fN; i++ {
+			if expired() {
+				hist["stopped at the deadline"] = 1
+				break
+			}
 			n := 2 + r.intn(3)
 			down := map[int]bool{}
 			moved := map[int]bool{}
